@@ -108,6 +108,15 @@ func (s *V2SessionlessTransport) newV2Session(ctx context.Context, opts *V2Sessi
 	if err != nil {
 		return nil, err
 	}
+	if openSessionRsp.AuthenticationPayload.Algorithm != cipherSuite.AuthenticationAlgorithm ||
+		openSessionRsp.IntegrityPayload.Algorithm != cipherSuite.IntegrityAlgorithm ||
+		openSessionRsp.ConfidentialityPayload.Algorithm != cipherSuite.ConfidentialityAlgorithm {
+		return nil, fmt.Errorf("managed system selected %v/%v/%v, but %v was proposed",
+			openSessionRsp.AuthenticationPayload.Algorithm,
+			openSessionRsp.IntegrityPayload.Algorithm,
+			openSessionRsp.ConfidentialityPayload.Algorithm,
+			cipherSuite)
+	}
 
 	// RAKP Message 1, 2
 	remoteConsoleRandom := [16]byte{}
